@@ -33,7 +33,10 @@ LEVEL_TEXT = ("Lean theorems over Model/Failure.lean + Model/FailureN.lean insta
               "runs, then the network delivers, then the controller receives, and NOTHING IN FLIGHT IS LOST, the run has returned or raised (never `starved`), with an error "
               "whenever the controller was still waiting; without the no-loss hypothesis the statement fails (witness: known finding C06-exit-unretried); outputs are only "
               "ever written from payloads read; every executor that reads ExecutorShutdown tears down; after the run has ended (normally or not, whatever was lost) every "
-              "executor that runs once more is torn down and stays so. Teardown: terminate is a PROGRAM against an explicit environment (Os): assuming only that "
+              "executor that runs once more is torn down and stays so; for ARBITRARY host names (one may be a suffix, prefix or substring of another): a report removes "
+              "exactly the host it names from the sender table (c05_pop_exact), when the run has ended every registered host has been sent ExecutorShutdown unless its own "
+              "ExecutorExit/ExecutorFailure was read before the first shutdown (c05_every_host_shut_down, _consumed, _N for N executors with losses), nobody else is messaged, "
+              "and an unreported host gets it exactly once (run returned) or twice (run raised: recv_events' own shutdown + the finally). Teardown: terminate is a PROGRAM against an explicit environment (Os): assuming only that "
               "SIGKILL+join ends a process, it is idempotent, addresses every child and leaves none alive, whatever workers and shm server do with their shutdown requests "
               "(the hypothesis cannot be dropped). Segments: none left when the shm server was alive and reacts as the source tree's server, or had died by SIGTERM/SIGINT or "
               "because its request loop raised (generated table: the exit handler runs on every path out of server.start()), and Manager.atexit (Model/Shm.lean) unlinks "
@@ -47,16 +50,21 @@ LEVEL_NOTE = ("modelled, not verified: Executor.healthcheck/terminate/recv_loop,
 TECHNIQUE = ("Lean 4 proof (stage invariants over arbitrary fair schedules of N executors; teardown as a program against an environment with explicit hypotheses; table side "
              "conditions by decide) + two AST translators (healthcheck; shm server exit paths) each cross-checked by driving the real code + differential correspondence on shell "
              "objects (real shm client over a fake socket, real shm server entrypoint over a scripted socket) + real-cluster fault injection with a process-table//dev/shm oracle")
-LEAN_PROPS = ["EkwVerif.Props.C05", "EkwVerif.Props.C05N", "EkwVerif.Props.C05Shm"]
+LEAN_PROPS = ["EkwVerif.Props.C05", "EkwVerif.Props.C05N", "EkwVerif.Props.C05Shm", "EkwVerif.Props.C05Hosts"]
 LEAN_DRIVERS = ["C05", "C08"]
 RULE = ("healthcheck: every combination of handle states {never-started, alive, exit 0, 1, -9} for 1-2 workers x {alive,0,1,-9} for shm and data "
         "server (480 cases); random executor states/inboxes for recv_loop (heartbeat due / retry budget exhausted as environment inputs) and terminate (stuck workers; shm "
         "server mute or lingering on the shutdown command, through the real shm client over a fake socket); generator tasks with 1-3 outputs crashing at every "
-        "point with Exception subclasses / SystemExit(n) / KeyboardInterrupt; random listener streams for Bridge.recv_events; impl.run against a "
-        "simulated cluster with a failure message of every class injected at every reply position; the real shm server entrypoint over a scripted socket: random request "
+        "point with Exception subclasses / SystemExit(n) / KeyboardInterrupt; random listener streams for Bridge.recv_events over 1-3 hosts; impl.run against a "
+        "simulated cluster (1-3 hosts) with a failure message of every class injected at every reply position; in both, 60% of the multi-host cases take their host names "
+        "from families related by suffix (node1/gpunode1, h1/xh1, 1/11), prefix (h1/h10), both (1/11/111), equal length, substring, case - in random registration order - "
+        "plus 16 directed cases per run in which one executor reports ExecutorFailure/ExecutorExit while the others live; the real shm server entrypoint over a scripted socket: random request "
         "histories ended by ShutdownCommand / undecodable datagram (unknown tag, empty, non-ascii key) / recvfrom error / sendto error / SIGTERM / SIGINT handler; "
         "real clusters (1-2 hosts x 1-2 workers): task raises / sys.exit(n) / SIGKILL before, during, after publishing; SIGKILL of data server; SIGKILL/SIGTERM of shm server "
         "(own/other host), shm server killed between reading a request / the shutdown command and answering it, one undecodable datagram on the shm port; "
+        "2 (quick) / 14 (thorough) fault runs on 2-3 host clusters whose host ids are related by suffix / prefix / equal length, the death (helper killed by name, or the "
+        "worker of the first of the parallel tasks a/b that runs there) placed on a chosen host, mostly the shorter-named one; every executor of a real run records when it "
+        "read ExecutorShutdown and when it reported its own exit/failure (oracle: told to stop unless it had reported by itself); "
         "random histories of the real shm Manager (as for C08/C09) each ended by Manager.atexit with readers/writers/disk jobs still registered; "
         "non-trivial = a case with at least one dead child, failure message or injected fault; distinct by content hash")
 ASSUMPTIONS = [
@@ -703,12 +711,14 @@ def _real_emsg(j, host):
     return M.WorkerReady(worker=_wid(host + ".w0"))     # not handled by recv_loop: TypeError
 
 
-def _real_cmsg(j):
+def _real_cmsg(j, h0="h0"):
+    """`h0`: the (registered) host that worker-level messages (pub / tf / xf) come from"""
     import cascade.executor.msg as M
     import cloudpickle
+    from cascade.low.core import WorkerId
     k = j[0]
     if k == "pub":
-        return M.DatasetPublished(origin=_wid("h0.w0"), ds=_dsid(j[1]), transmit_idx=None)
+        return M.DatasetPublished(origin=WorkerId(h0, "w0"), ds=_dsid(j[1]), transmit_idx=None)
     if k == "pay":
         return M.DatasetTransmitPayload(header=M.DatasetTransmitPayloadHeader(confirm_address="x", confirm_idx=0, ds=_dsid(j[1]), deser_fun="cloudpickle.loads"),
                                         value=cloudpickle.dumps(j[2]))
@@ -717,11 +727,11 @@ def _real_cmsg(j):
     if k == "reg":
         return M.ExecutorRegistration(host=j[1], maddress="x", daddress="y", workers=[])
     if k == "tf":
-        return M.TaskFailure(worker=_wid("h0.w0"), task="t", detail="x")
+        return M.TaskFailure(worker=WorkerId(h0, "w0"), task="t", detail="x")
     if k == "ef":
         return M.ExecutorFailure(host=j[1], detail="x")
     if k == "xf":
-        return M.DatasetTransmitFailure(host="h0", detail="x")
+        return M.DatasetTransmitFailure(host=h0, detail="x")
     if k == "exit":
         return M.ExecutorExit(host=j[1])
     return M.ExecutorShutdown()
@@ -1030,6 +1040,54 @@ def gen_worker_cases(rng, n):
     return (cases + extra)[:max(n, 40)]
 
 
+# ---- host-name families: executor host ids are free-form strings (`HostId = str`); the Bridge keys its sender table by
+# them ("<host>" and "data.<host>"). Names related by suffix / prefix / substring / equal length must behave like unrelated ones.
+
+HOST_FAMILIES = [
+    ("suffix", ["node1", "gpunode1", "xgpunode1"]), ("suffix", ["h1", "xh1", "yxh1"]), ("suffix", ["1", "11", "211"]),
+    ("suffix", ["a1", "ba1", "cba1"]), ("suffix-prefix", ["1", "11", "111"]), ("prefix", ["h1", "h10", "h101"]),
+    ("prefix", ["n", "n0", "n00"]), ("equal-length", ["ab", "ba", "aa"]), ("substring", ["b", "abc", "xabcy"]),
+    ("case", ["h1", "H1", "hh1"]), ("substring-of-data-key", ["a", "h1", "t"]),
+]
+
+
+# (registered hosts in registration order, the host that dies): suffix both orders, suffix+prefix, prefix, equal length, substring
+DIRECTED_NAMES = [(["node1", "gpunode1"], "node1"), (["xh1", "h1"], "h1"), (["1", "11", "111"], "1"), (["1", "11", "111"], "11"),
+                  (["h1", "h10"], "h1"), (["ab", "ba"], "ab"), (["abc", "b"], "b"), (["h0", "h1"], "h0")]
+
+
+def directed_recvs():
+    """Bridge.recv_events reads the failure / exit of one executor; the live ones answer the shutdown (or one never does)"""
+    out = []
+    for names, dead in DIRECTED_NAMES:
+        others = [h for h in names if h != dead]
+        out.append((list(names), [[["pub", "t0|o0", False], ["ef", dead]]] + [[["exit", h]] for h in others]))
+        out.append((list(names), [[["ack"]], [["exit", dead], ["pub", "t1|o1", True]]] + [[["exit", h]] for h in others[:-1]]))
+    return out
+
+
+def gen_host_names(rng, n, related=0.6):
+    """n distinct host names; with probability `related` from a family in which one name is a proper suffix / prefix /
+    substring of another (in random order: the shorter name is not always the first registered)"""
+    if rng.random() >= related:
+        return "plain", [f"h{i}" for i in range(n)]
+    fam, names = rng.choice(HOST_FAMILIES)
+    names = [x.replace(".", "_") for x in names]       # WorkerId.from_repr splits at the first dot
+    if n <= len(names):
+        k = rng.randint(0, len(names) - n)
+        pick = names[k:k + n] if rng.random() < 0.7 else rng.sample(names, n)
+    else:
+        pick = names + [f"h{i}" for i in range(n - len(names))]
+    pick = list(pick)
+    rng.shuffle(pick)
+    return fam, pick
+
+
+def related_names(hosts):
+    """is some host name a proper suffix or prefix of another one"""
+    return any(a != b and (b.endswith(a) or b.startswith(a)) for a in hosts for b in hosts)
+
+
 # ---- (ii.e) Bridge.recv_events
 
 class FakeTime:
@@ -1059,6 +1117,28 @@ def make_bridge(hosts, listener, log):
     return b
 
 
+_LAST_RECV = {}
+
+
+def oracle_recv(hosts, batches, out):
+    """Property text: after a failure the executor processes exit — the Bridge sends ExecutorShutdown to every executor that has
+    not itself reported its exit/failure (whatever the hosts are called). Reads what the real listener handed out."""
+    if out.get("res") != "raised":
+        return None
+    lst = _LAST_RECV.get("listener")
+    consumed = lst.consumed if lst is not None else []
+    reported = {m.host for bt in consumed for m in bt if _cmsg_of_real(m)[0] in ("ef", "exit")}
+    for h in hosts:
+        if h not in out.get("sent", []) and h not in reported:
+            return ({"kind": "no-shutdown-at-end", "ended": "recv-raised"},
+                    f"Bridge.recv_events shut down and raised, but host {h!r} (registered hosts {hosts}) was never sent ExecutorShutdown and had "
+                    f"not reported its own exit or failure (reported: {sorted(reported)}); batches {batches}")
+    for h in out.get("sent", []):
+        if h not in hosts:
+            return ({"kind": "shutdown-to-stranger"}, f"ExecutorShutdown sent to {h!r}, which is not a registered host ({hosts})")
+    return None
+
+
 def real_recv(hosts, batches):
     import cascade.executor.msg as M
     log = []
@@ -1072,10 +1152,11 @@ def real_recv(hosts, batches):
                 raise _Hang("Bridge.shutdown keeps waiting for hosts that never answer (70 h of fake time)")
             return []
         raise _Stop()
-    lst = ScriptListener([[_real_cmsg(j) for j in b] for b in batches], exhausted)
+    lst = ScriptListener([[_real_cmsg(j, hosts[0]) for j in b] for b in batches], exhausted)
     b = make_bridge(hosts, lst, log)
     holder["b"] = b
-    for h in ["h0", "h1", "h2"]:
+    _LAST_RECV["listener"] = lst
+    for h in ["h0", "h1", "h2"] + list(hosts):
         b.heartbeat_checker[h] = FakeWatcher()
     orig = b.shutdown
 
@@ -1121,6 +1202,10 @@ def gen_batches(rng, hosts):
             elif fail:
                 b.append(rng.choice([["tf"], ["ef", rng.choice(hosts)], ["xf"], ["exit", rng.choice(hosts)], ["unsup"]]))
         out.append(b)
+    if fail and len(hosts) >= 2 and rng.random() < 0.5:
+        # the FIRST failure the controller reads comes from one given host (the others are alive and must be told to stop)
+        h = rng.choice(hosts)
+        out.insert(rng.randint(0, len(out)), [rng.choice([["ef", h], ["exit", h]])])
     # replies to the shutdown
     for h in hosts:
         if rng.random() < 0.8:
@@ -1144,7 +1229,7 @@ def real_run_sim(case):
     from cascade.scheduler.graph import precompute
     from ekw import c05_cluster as cl
     job = _sim_job(case["ext"])
-    hosts = [f"h{i}" for i in range(case["hosts"])]
+    hosts = list(case["names"]) if case.get("names") else [f"h{i}" for i in range(case["hosts"])]
     log = []
     queue = []
     state = {"replies": 0, "in_shutdown": False, "exited": set()}
@@ -1153,10 +1238,10 @@ def real_run_sim(case):
 
     def push(m):
         if inject and state["replies"] == inject["at"] and inject["pos"] == "before":
-            queue.append(_real_cmsg(inject["kind"]))
+            queue.append(_real_cmsg(inject["kind"], hosts[0]))
         queue.append(m)
         if inject and state["replies"] == inject["at"] and inject["pos"] == "after":
-            queue.append(_real_cmsg(inject["kind"]))
+            queue.append(_real_cmsg(inject["kind"], hosts[0]))
         state["replies"] += 1
 
     def on_send(host, m):
@@ -1272,15 +1357,26 @@ def gen_run_cases(rng, n):
     for hosts, workers in [(1, 1), (1, 2), (2, 1)]:
         for ext in (["src|0", "sink|o"], ["sink|o"], ["src|1", "a|o", "sink|o"]):
             cases.append({"hosts": hosts, "workers": workers, "ext": ext, "inject": None, "split": []})
+    # one executor reports its failure / exit while the others live, host names related in every way (every run)
+    for names, dead in DIRECTED_NAMES:
+        for kind in ("ef", "exit"):
+            cases.append({"hosts": len(names), "workers": 1, "ext": ["src|0", "sink|o"], "names": list(names),
+                          "inject": {"at": 1 if kind == "ef" else 2, "kind": [kind, dead], "pos": "after" if kind == "ef" else "before"}, "split": []})
     while len(cases) < n:
-        hosts, workers = rng.choice([(1, 1), (1, 2), (2, 1), (2, 2)])
+        hosts, workers = rng.choice([(1, 1), (1, 2), (2, 1), (2, 2), (3, 1)])
         ext = rng.choice([["src|0", "sink|o"], ["sink|o"], ["src|1", "a|o", "sink|o"], ["b|o"]])
+        fam, names = gen_host_names(rng, hosts, related=0.6 if hosts > 1 else 0.2)
         k = rng.choice(kinds)
+        if hosts > 1 and rng.random() < 0.5:
+            k = [rng.choice(["ef", "exit"]), ""]      # multi-host clusters: mostly one executor dies, the others live
         if k[0] in ("ef", "exit"):
-            k = [k[0], "h%d" % rng.randrange(hosts)]
-        cases.append({"hosts": hosts, "workers": workers, "ext": ext,
-                      "inject": None if rng.random() < 0.2 else {"at": rng.randint(0, 8), "kind": k, "pos": rng.choice(["before", "after"])},
-                      "split": [rng.randint(1, 3) for _ in range(rng.randint(0, 6))]})
+            k = [k[0], names[rng.randrange(hosts)]]
+        case = {"hosts": hosts, "workers": workers, "ext": ext,
+                "inject": None if rng.random() < 0.2 else {"at": rng.randint(0, 8), "kind": k, "pos": rng.choice(["before", "after"])},
+                "split": [rng.randint(1, 3) for _ in range(rng.randint(0, 6))]}
+        if fam != "plain":
+            case["names"] = names
+        cases.append(case)
     return cases
 
 
@@ -1641,6 +1737,7 @@ def garbage_case(rng):
 
 
 
+OWN_REPORT_SLACK_S = 5.0
 SIGKILL_SHM_FAULTS = ("kill-shm", "kill-shm-midreq", "kill-shm-midshutdown")
 
 
@@ -1683,12 +1780,27 @@ def judge_cluster(case, obs):
             v.append((dict(sig0, kind="ok-despite-lost-output"),
                       f"the fault was injected ({case['fault']} at {case['task']}/{case['when']}: the task cannot have produced all its outputs) and the run "
                       f"still ended WITHOUT an error, outputs {obs['outputs']}; case {case}"))
+    # every executor is told to stop unless it had itself reported its exit / failure while the run was still on: an executor
+    # that is never sent ExecutorShutdown lives on with its workers, shm server and data server (until, at best, its own
+    # heartbeat retries run out long after the run is over)
+    for h, e in sorted((obs.get("exec_events") or {}).items()):
+        told = e.get("shutdown") is not None
+        # (an executor that has just seen one of its own children die may report and leave without reading the shutdown already
+        # queued for it; giving up on the vanished controller takes max_retries x resend grace = more than 15 s)
+        own = e.get("reported") is not None and e["reported"] <= OWN_REPORT_SLACK_S
+        if not told and not own:
+            late = f"; it gave up by itself {e['reported']} s after the run had ended ({e.get('what', '')[:80]})" if e.get("reported") is not None else "; it never reported anything itself"
+            v.append((dict(sig0, kind="no-shutdown-at-end", ended=obs["ended"], where="cluster"),
+                      f"the run ended ({obs['ended']}) but the executor of host {h!r} (hosts of the run: {obs.get('hosts')}, fault on {obs.get('victim_host')!r}) "
+                      f"was never sent ExecutorShutdown{late}; case {case}"))
     if obs["leftover_procs"]:
         v.append((dict(sig0, kind="leftover-procs"), f"{len(obs['leftover_procs'])} process(es) of the run still alive after it ended ({obs['ended']}): {[c[:50] for c in obs['leftover_procs'][:3]]}; case {case}"))
     if obs["leftover_shm"]:
         # whose segments? only those of the host whose shm server was SIGKILLed belong to the class a SIGKILL explains
         vh = obs.get("victim_host") or ""
-        mine = [n for n in obs["leftover_shm"] if vh and n.startswith("sCasc" + vh)]
+        hs = obs.get("hosts") or ([vh] if vh else [])
+        # exact attribution (one host name may be a prefix of another one's)
+        mine = [n for n in obs["leftover_shm"] if vh and (cl.segment_host(n, hs) == vh if hs else n.startswith("sCasc" + vh))]
         others = [n for n in obs["leftover_shm"] if n not in mine]
         if mine:
             v.append((dict(sig0, kind="leftover-shm", host="victim"),
@@ -1701,7 +1813,8 @@ def judge_cluster(case, obs):
 
 
 def _obs_summary(obs):
-    return {k: obs.get(k) for k in ("ended", "error", "outputs", "leftover_procs", "leftover_shm", "job_started", "fault_fired", "victim_host", "t_run", "wall", "alive_at_deadline")}
+    return {k: obs.get(k) for k in ("ended", "error", "outputs", "leftover_procs", "leftover_shm", "job_started", "fault_fired", "victim_host", "t_run", "wall", "alive_at_deadline",
+                                    "hosts", "exec_events")}
 
 
 def run_cluster_case(ctx, case, deadline=30.0, confirm=True, first_obs=None):
@@ -1734,7 +1847,12 @@ def run_cluster_case(ctx, case, deadline=30.0, confirm=True, first_obs=None):
     if obs["ended"] == "error" and case["fault"] != "none" and not lost_output_certain(case):
         ctx.count("cluster:error-where-outputs-might-have-survived")      # allowed by the property text; counted for the record
     viol = judge_cluster(case, obs)
-    ctx.extra.setdefault("cluster_runs", []).append({"case": {k: case[k] for k in ("fault", "when", "task", "hosts", "workers", "victim", "datagram") if k in case}, "ended": obs["ended"],
+    if case.get("names"):
+        ctx.count("cluster:related-host-names")
+        ctx.count("cluster:names=" + ",".join(case["names"]))
+        if obs.get("fault_fired"):
+            ctx.count("cluster:related-host-names+death-on=" + ("shorter-named" if (obs.get("victim_host") or "") == min(obs.get("hosts") or [""], key=len) else "other"))
+    ctx.extra.setdefault("cluster_runs", []).append({"case": {k: case[k] for k in ("fault", "when", "task", "hosts", "workers", "victim", "datagram", "names", "on_host") if k in case}, "ended": obs["ended"],
                                                       "t_run": obs.get("t_run"), "wall": obs.get("wall"), "verdicts": [s["kind"] for s, _ in viol]})
     if obs["ended"] == "infra":
         ctx.notes.append(f"cluster run could not be set up ({obs.get('error')}): {case}")
@@ -1985,15 +2103,24 @@ def _inprocess(ctx, use_model=True):
         add("execute_sequence", {"worker": case}, worker_model_line(case), out, lambda m: {"msgs": m["msgs"], "exit": m["exit"]})
 
     # (ii.e) Bridge.recv_events
-    recvs = [(c["hosts"], c["recv"]) for c in corpus if "recv" in c]
+    recvs = [(c["hosts"], c["recv"]) for c in corpus if "recv" in c] + directed_recvs()
     for _ in range(ctx.budget(300, 6000)):
-        hosts = ["h0", "h1"][: rng.randint(1, 2)]
+        nh = rng.choice([1, 2, 2, 3])
+        fam, hosts = gen_host_names(rng, nh, related=0.6 if nh > 1 else 0.2)
         recvs.append((hosts, gen_batches(rng, hosts)))
     for hosts, batches in recvs:
         out, fail_consumed = real_recv(hosts, batches)
         ctx.case({"recv": batches, "hosts": hosts}, nontrivial=any(m[0] in ("tf", "ef", "xf", "exit", "unsup") for b in batches for m in b))
         ctx.count("recv:cases")
         ctx.count("recv:res=" + out["res"].split(":")[0])
+        ctx.count("recv:hosts=%d" % len(hosts))
+        if related_names(hosts):
+            ctx.count("recv:related-host-names")
+            if out["res"] == "raised" and any(m[0] in ("ef", "exit") for b in batches for m in b):
+                ctx.count("recv:related-host-names+executor-death")
+        o = oracle_recv(hosts, batches, out)
+        if o:
+            ctx.violation(o[0], {"recv": batches, "hosts": hosts}, o[1])
         if out["res"] == "hang":
             ctx.violation({"kind": "shutdown-waits-forever"}, {"recv": batches, "hosts": hosts},
                           f"Bridge.shutdown never returns when a host does not answer ExecutorShutdown: {out['why']}; batches {batches}")
@@ -2015,6 +2142,11 @@ def _inprocess(ctx, use_model=True):
         ctx.count("runsim:status=" + res["status"])
         if case["inject"]:
             ctx.count("runsim:inject=" + case["inject"]["kind"][0])
+        ctx.count("runsim:hosts=%d" % len(hosts))
+        if related_names(hosts):
+            ctx.count("runsim:related-host-names")
+            if case["inject"] and case["inject"]["kind"][0] in ("ef", "exit"):
+                ctx.count("runsim:related-host-names+executor-death")
         o = oracle_run_sim(case, res, batches, hosts)
         if o:
             ctx.violation(o[0], {"run_sim": case}, o[1])
@@ -2054,6 +2186,38 @@ def shm_exit_phase(ctx):
         sim_shm.ATEXIT_LINE = False
 
 
+# Host ids of the executors are free-form strings and key the Bridge's sender table ("<host>", "data.<host>"). Real clusters whose
+# host names are related (`{u}` = the run's unique token): one a proper SUFFIX of the other, a proper PREFIX, or of equal length; a
+# process dies on ONE host (mostly the one with the shorter name) -> its executor reports ExecutorFailure and is forgotten by the
+# Bridge; the OTHER executor is alive and must be shut down like in any other run (no process, no segment left).
+NAME_RELATIONS = {"suffix": ["{u}1", "g{u}1"], "suffix-rev": ["g{u}1", "{u}1"], "prefix": ["{u}1", "{u}1z"], "equal-length": ["{u}ab", "{u}ba"],
+                  "suffix-3": ["{u}1", "g{u}1", "xg{u}1"]}
+
+
+def name_cases(rng, n):
+    """n fault runs on clusters with related host names: the death is placed on a chosen host by name"""
+    out = []
+    rels = ["suffix", "suffix-rev", "suffix", "prefix", "equal-length", "suffix-3"]
+    for k in range(n):
+        rel = "suffix" if k == 0 else rng.choice(rels)
+        names = NAME_RELATIONS[rel]
+        short = min(range(len(names)), key=lambda i: len(names[i]))
+        where = short if (k == 0 or rng.random() < 0.8) else rng.randrange(len(names))
+        x = rng.random()
+        if x < 0.45:
+            # a helper process of the chosen host dies (whoever runs the task kills it) -> ExecutorFailure from that host
+            c = dict(fault=rng.choice(["kill-data", "kill-data", "term-shm", "garbage-shm"]), when=rng.choice(["before", "during"]), task="src",
+                     hosts=len(names), workers=1, victim="name:%d" % where)
+            if c["fault"] == "garbage-shm":
+                c["datagram"] = rng.choice(CLUSTER_DATAGRAMS)
+        else:
+            # a worker of the chosen host dies: the first of the two parallel tasks a / b that runs there
+            c = dict(fault=rng.choice(["kill9", "exit"]), when="before", task="a+b", hosts=len(names), workers=1, code=3, on_host=where)
+        c["names"] = list(names)
+        out.append(c)
+    return out
+
+
 # fault runs whose teardown sits out a grace period (a worker blocked for ever on a dead shm server; a shm server that never
 # answers the shutdown command): 12-25 s each. The quick tier runs them too -- concurrently with the in-process phases.
 SLOW_CASES = [dict(fault="kill-shm-midreq", when="before", task="src", hosts=1, workers=2, victim="own"),
@@ -2080,15 +2244,17 @@ def _start_background(ctx, cases):
 
 
 def _cluster_all(ctx):
-    bg = _start_background(ctx, SLOW_CASES) if ctx.quick else None
+    named = name_cases(ctx.rng, ctx.budget(2, 14))
+    bgcases = SLOW_CASES + named[:2]
+    bg = _start_background(ctx, bgcases) if ctx.quick else None
     yield
-    cases = pick_cluster_cases(ctx)
+    cases = pick_cluster_cases(ctx) + ([] if ctx.quick else named)
     cluster_phase(ctx, cases + [SHM_WITNESS], healthy=True)
     if bg is not None:
         threads, res = bg
         for th in threads:
             th.join(120)
-        cluster_phase(ctx, [c for c in SLOW_CASES if json.dumps(c, sort_keys=True) in res], healthy=False, first=res)
+        cluster_phase(ctx, [c for c in bgcases if json.dumps(c, sort_keys=True) in res], healthy=False, first=res)
     yield
 
 
@@ -2177,8 +2343,10 @@ def replay(payload):
     if "recv" in case:
         out, fc = real_recv(case["hosts"], case["recv"])
         bad = (out["res"] != "raised" and fc) or out["res"] == "hang"
-        print("recv_events over", case["recv"], "->", out, "\noracle: failure ignored / shutdown waits for ever" if bad else "\noracle: ok")
-        return 1 if bad else 0
+        o = oracle_recv(case["hosts"], case["recv"], out)
+        print("recv_events over", case["recv"], "hosts", case["hosts"], "->", out,
+              "\noracle: failure ignored / shutdown waits for ever" if bad else "\noracle: " + (str(o) if o else "ok"))
+        return 1 if (bad or o) else 0
     if "run_sim" in case:
         res, batches, hosts = real_run_sim(case["run_sim"])
         o = oracle_run_sim(case["run_sim"], res, batches, hosts)
